@@ -291,7 +291,7 @@ def random_history(d, rng, steps):
                 k = len(dims)
                 if rng.random() < 0.12:
                     k += rng.choice([-1, 1])
-                idx = [rng.randint(lo, dims[i]) if i < len(dims) else lo for i in range(max(1, k))]
+                idx = [rng.randint(min(lo, dims[i]), max(lo, dims[i])) if i < len(dims) else lo for i in range(max(1, k))]
                 if rng.random() < 0.3:
                     i = rng.randrange(len(idx))
                     idx[i] = rng.choice([-1, lo - 1, (dims[i] if i < len(dims) else 3) + 1, -2, 11, 32767, -32768])
